@@ -40,7 +40,7 @@ Lemma gate_notauth : forall c, gate PNotAuth c =
   | CCapability | CIDGet | CIDSet | CNoop => DAnyNoUser
   | CLogin => DLoginAttempt
   | CLogout => DLogout
-  | CStartTLS => DDrop
+  | CStartTLS => if starttls_without_tls_answers_no then DRefuse RNo else DDrop
   | _ => DRefuse RNo
   end.
 Proof. destruct c; vm_compute; reflexivity. Qed.
@@ -49,7 +49,7 @@ Lemma gate_auth : forall u c, gate (PAuth u) c =
   match c with
   | CLogin => DRefuse RBad
   | CLogout => DLogout
-  | CStartTLS => DDrop
+  | CStartTLS => if starttls_without_tls_answers_no then DRefuse RNo else DDrop
   | CCheck | CClose | CExpunge | CUIDExpunge | CUnselect | CSearch | CFetch | CStore | CCopy | CMove | CUID => DRefuse RNo
   | _ => DAdmit u None
   end.
@@ -59,7 +59,7 @@ Lemma gate_sel : forall u m ro c, gate (PSel u m ro) c =
   match c with
   | CLogin => DRefuse RBad
   | CLogout => DLogout
-  | CStartTLS => DDrop
+  | CStartTLS => if starttls_without_tls_answers_no then DRefuse RNo else DDrop
   | _ => DAdmit u (Some (m, ro))
   end.
 Proof. destruct c; vm_compute; reflexivity. Qed.
